@@ -140,6 +140,7 @@ pub fn exec_read(work: &Work, bytes: &Rc<Vec<u8>>, bufcap: usize, sched: &Schedu
         Work::Write { .. } => unreachable!(),
     };
     let t = trace.borrow();
+    t.dump(&format!("read bufcap={bufcap} sched={sched:?} faults={faults:?} -> {}", res.class()));
     let mut digest = t.digest;
     digest = fnv1a_add(digest, res.class().as_bytes());
     if let Res::Ok((shape, bits)) = &res {
@@ -174,6 +175,7 @@ pub fn exec_write(spec: &Spec, npy: bool, precision: usize, sched: &Schedule, fa
     let r = l1::write_spectrum(&mut w, &scs, npy, precision);
     let accepted = w.accepted.borrow().clone();
     let t = trace.borrow();
+    t.dump(&format!("write sched={sched:?} faults={faults:?} -> {}", r.class()));
     let mut digest = t.digest;
     digest = fnv1a_add(digest, r.class().as_bytes());
     digest = fnv1a_add(digest, &accepted);
